@@ -28,6 +28,7 @@ def instances(tier):
     for ux in ((1, 0x8000, 0x10000, 0x18000, 0x7fffffff) if tier == "quick" else (1, 2, 3, 0x5555, 0x8000, 0xffff, 0x10000, 0x10001, 0x18000, 0x30000, 0x1234567, 0x40000000, 0x7fffffff)):
         L.append(Inst("scaler-pad-bounds-ux%x" % ux, "C04/padbounds.c", {"UNITX": ux}, link=[], unwind=2, timeout=900,
                       desc={"what": "pad_repeat_get_scanline_bounds: for every source width, start coordinate, scanline width and pixel index the unguarded middle part samples inside the source row (unit_x concrete)"}))
+    # MEASURED: a symbolic step (unit_x in 1..255, -DUNITX_SYM) gives no verdict in 200 s (division by a symbolic divisor) - unit_x stays a menu
     for ux in ((0x10000,) if tier == "quick" else (1, 3, 0x5555, 0x8000, 0xffff, 0x10000, 0x10001, 0x18000, 0x30000, 0x1234567, 0x7fffffff)):
         L.append(Inst("scaler-bilinear-zones-ux%x" % ux, "C04/padbounds.c", {"UNITX": ux, "BILINEAR": None}, link=[], unwind=2, timeout=900,
                       desc={"what": "bilinear_pad_repeat_get_scanline_bounds: five zones exact for every source width, start coordinate, width and pixel index (unit_x concrete)"}))
